@@ -317,6 +317,7 @@ class Report:
                          "traces_validated_against_impl": 0}
         self.assumptions = []
         self.distinct = set()
+        self.known_hits = {}
 
     def violation(self, text, replay_body, no_input=False):
         os.makedirs(REPLAYS, exist_ok=True)
